@@ -26,7 +26,7 @@ sweep(void)
 			continue;
 		noted[i] = 1;
 		if (ukind[i] == 2 && KRESULT(i) == 0) {
-			nni_msg *m = nni_aio_get_msg(&uaio[i]);
+			nni_msg *m = nni_aio_get_msg(&uaio_at(i));
 			CHECK(m != NULL && m->tag >= 1 && m->tag <= nq, "a received request is one that arrived from a peer");
 			CHECK(nni_msg_header_len(m) == 0, "cooked receive strips the backtrace from the request");
 			CHECK(nni_msg_len(m) == 2, "the request body is what followed the backtrace");
@@ -34,13 +34,13 @@ sweep(void)
 			req_q    = m->tag - 1;
 			replied  = 0;
 			nni_msg_free(m);
-			nni_aio_set_msg(&uaio[i], NULL);
+			nni_aio_set_msg(&uaio_at(i), NULL);
 			WITNESS("request received");
 		}
-		if (ukind[i] == 1 && KRESULT(i) != 0 && nni_aio_get_msg(&uaio[i]) != NULL) {
-			CHECK(nni_aio_get_msg(&uaio[i]) == umsg[i], "C03: failed send leaves the reply with the caller");
+		if (ukind[i] == 1 && KRESULT(i) != 0 && nni_aio_get_msg(&uaio_at(i)) != NULL) {
+			CHECK(nni_aio_get_msg(&uaio_at(i)) == umsg[i], "C03: failed send leaves the reply with the caller");
 			nni_msg_free(umsg[i]);
-			nni_aio_set_msg(&uaio[i], NULL);
+			nni_aio_set_msg(&uaio_at(i), NULL);
 		}
 	}
 }
@@ -51,7 +51,7 @@ monitor(void)
 	sweep();
 	for (int i = 0; i < MAXU; i++)
 		if (uaio_used[i])
-			CHECK(env_aio_completed(&uaio[i]) <= 1, "operation completes at most once");
+			CHECK(env_aio_completed(&uaio_at(i)) <= 1, "operation completes at most once");
 	if (!sock_closed)
 		CHECK(nni_atomic_get_bool(&sock.readable.p_raised) == !nni_list_empty(&sock.recvpipes), "C15: receive poll state mirrors whether a request is waiting");
 }
@@ -62,7 +62,10 @@ ev_attach(int p)
 	if (kstop)
 		return;
 	env_pipe_init(&kpipe[p], 100 + p, REP0_PEER);
-	memset(&pd[p], 0, sizeof(pd[p]));
+	{
+		static const __typeof__(pd[0]) pd_zero;
+		pd[p] = pd_zero; /* struct assignment keeps field sensitivity, memset does not */
+	}
 	CHECK(rep0_pipe_init(&pd[p], &kpipe[p], &sock) == 0, "pipe_init");
 	kpipe_up[p] = 1;
 	CHECK(rep0_pipe_start(&pd[p]) == 0, "pipe_start accepts a REQ peer");
@@ -167,8 +170,8 @@ ev_recv(int i, int blocking)
 	int busy = sock.ctx.raio != NULL;
 	kuaio_prepare(i, blocking);
 	ukind[i] = 2;
-	env_aio_submit(&uaio[i]);
-	rep0_ctx_recv(&sock.ctx, &uaio[i]);
+	env_aio_submit(&uaio_at(i));
+	rep0_ctx_recv(&sock.ctx, &uaio_at(i));
 	if (can)
 		CHECK(KDONE(i) && KRESULT(i) == 0, "C15: receive succeeds at once when a request is waiting");
 	else if (!blocking)
@@ -195,9 +198,9 @@ ev_send(int i, int blocking)
 	ukind[i] = 1;
 	umsg[i]  = kmsg(2);
 	umsg[i]->tag = 77 + i;
-	nni_aio_set_msg(&uaio[i], umsg[i]);
-	env_aio_submit(&uaio[i]);
-	rep0_ctx_send(&sock.ctx, &uaio[i]);
+	nni_aio_set_msg(&uaio_at(i), umsg[i]);
+	env_aio_submit(&uaio_at(i));
+	rep0_ctx_send(&sock.ctx, &uaio_at(i));
 	kquiesce();
 	if (!pending) {
 		CHECK(KDONE(i) && KRESULT(i) == NNG_ESTATE, "send without a request to answer (or a second reply) fails with ESTATE");
@@ -289,7 +292,6 @@ ev_close(void)
 void
 harness(void)
 {
-	memset(&sock, 0, sizeof(sock));
 	rep0_sock_init(&sock, NULL);
 	monitor();
 	SKEL
